@@ -83,9 +83,24 @@ theorem dec_foreignEndTagLoop (hd : AllDec) {tag : Tag} : ∀ (n : Nat) (first :
   intro n
   induction n with
   | zero =>
-    intro first s _ _ r s' h
+    intro first s ht hlt r s' h
     unfold foreignEndTagLoop at h
-    rw [(ok_pure h).1.symm]; trivial
+    have h1 := ok_getS_bind h
+    have hget : s.openElems[0]? = some s.openElems[0] := List.getElem?_eq_getElem hlt
+    rw [hget] at h1
+    dsimp only at h1
+    simp only [pure_bind] at h1
+    have hmem : s.openElems[0] ∈ s.openElems := List.getElem_mem hlt
+    obtain ⟨nn, s1, h2, h3⟩ := ok_bind h1
+    obtain ⟨rfl, hq1⟩ := sat_ok (al := anyAl) (sat_elemName (ht.h.open_el _ hmem)) h2
+    by_cases c1 : (!first && (nm s.dom s.openElems[0]).ns == nsHtml) = true
+    · rw [if_pos c1] at h3
+      have h4 := ok_getS_bind h3
+      have hdec := hd (.tag tag) s1 (ht.of_qf hq1) r s' h4
+      rw [hq1.mode] at hdec
+      exact hdec.mono (WLe.of_qf ht.h.open_el hq1)
+    · rw [if_neg c1] at h3
+      rw [(ok_pure h3).1.symm]; trivial
   | succ n ih =>
     intro first s ht hlt r s' h
     unfold foreignEndTagLoop at h
